@@ -106,7 +106,9 @@ def add_to_dict(template, template_dict: dict, full_dict: dict):
 
     temp_key = template.name
     existing_labels = {key: 0 for key in full_dict.keys()}
-    if temp_key in full_dict and full_dict[temp_key] != template_dict:
-        temp_key, _ = get_unique_label(temp_key, existing_labels)
+    # find a key that is either unused or already holds exactly this definition
+    # (a third variant of the same template must not overwrite the second one)
+    while temp_key in full_dict and full_dict[temp_key] != template_dict:
+        temp_key, existing_labels = get_unique_label(template.name, existing_labels)
     full_dict[temp_key] = template_dict
     return temp_key
